@@ -294,7 +294,13 @@ pub fn main(args: &[String]) {
                 let spans = e.literal_spans.clone();
                 let enc = e.out;
                 let (_, follow) = gen_pair(&mut rng, true);
-                for (k, (off, len)) in spans.iter().enumerate().take(4) {
+                // up to six literal positions of the response: all of them, or a random sample (not always the first ones)
+                let mut picked: Vec<usize> = (0..spans.len()).collect();
+                while picked.len() > 6 {
+                    let j = rng.below(picked.len());
+                    picked.remove(j);
+                }
+                for (k, (off, len)) in spans.iter().enumerate().filter(|(k, _)| picked.contains(k)) {
                     // header = "{" digits "}" CRLF right before the content
                     let hdr_end = *off;
                     let mut hdr_start = hdr_end - 3; // before "}\r\n"
@@ -340,8 +346,16 @@ pub fn main(args: &[String]) {
                     let a2 = build(&marker2);
                     let binary_ok = run_parser(&a2) == format!("OK {} {}", a2.len(), base.replace(&mh, &hex(&marker2)));
                     let rf = run_parser(&follow);
+                    let ignored = ra.matches(&mh).count() == 0;
+                    // a position whose content the value does not show is probed with the delimiters it must skip over
+                    let mut tries: Vec<Vec<u8>> = vec![];
                     let x = rng.pick(&contents).clone();
-                    let x = if rng.chance(1, 6) { (0..1 + rng.below(40)).map(|_| 1 + rng.below(255) as u8).collect() } else { x };
+                    tries.push(if rng.chance(1, 6) { (0..1 + rng.below(40)).map(|_| 1 + rng.below(255) as u8).collect() } else { x });
+                    if ignored {
+                        tries.push(b")".to_vec());
+                        tries.push(b"(x) y\r\n".to_vec());
+                    }
+                    for x in tries {
                     let b = build(&x);
                     let mut bf = b.clone();
                     bf.extend_from_slice(&follow);
@@ -397,6 +411,7 @@ pub fn main(args: &[String]) {
                         format!("BAD expected {}", &expect[..expect.len().min(300)])
                     };
                     println!("{}\t{}\t{}", hex(&bf), &rb[..rb.len().min(400)], verdict);
+                    }
                 }
             }
         }
